@@ -600,6 +600,10 @@ async fn scenario(p: Plan) {
                     exec::count("probe.secure_answer");
                     if let Some(e) = &edit_applied {
                         exec::count(&format!("probe.secure_despite.{e}"));
+                        if std::env::var("C06_DEBUG").ok().as_deref() == Some(e.as_str()) {
+                            exec::violate("C06.debug", e, format!("step {si}: secure despite {e}"));
+                            return;
+                        }
                     }
                 }
             }
